@@ -443,19 +443,19 @@ def runCload (r : Report) (s : Section) (l : Line) (fs : Fields) (j : J) : Repor
       r := r.violation s.idx l.idx s!"format-dependent class=format-collision CJ=[{g "CJ"}] CY=[{g "CY"}] CT=[{g "CT"}] doc=[{printTree j}]"
   return r
 
-def f32Ty : Fields := .cons { name := "X".toList, key := "x".toList, optional := false, embedded := false } (.prim (.float 32)) .nil
+def f32DrvTy : Fields := .cons { name := "X".toList, key := "x".toList, optional := false, embedded := false } (.prim (.float 32)) .nil
 
 /-- `{"x":<lit>}` into `struct{X float32}`: go-zero against encoding/json on literals that are close to a float32 tie. -/
 def runF32 (r : Report) (s : Section) (l : Line) (lit : String) : Report := Id.run do
   let mut r := r
   let j : J := .obj (.cons "x".toList (.num lit.toList) .nil)
   let g (k : String) : String := (obs? l.obs k).getD "?"
-  let mU := eitherF32 (fun o => printRes (unmarshalWith o f32Ty j)) {} (obs? l.obs "U")
+  let mU := eitherF32 (fun o => printRes (unmarshalWith o f32DrvTy j)) {} (obs? l.obs "U")
   r := checkTok r s l "U" mU
-  r := checkTok r s l "L" (eitherF32 (fun o => printRes (loadJsonO o f32Ty j)) confOpts (obs? l.obs "L"))
-  r := checkTok r s l "S" (printRes (stdDecode f32Ty j))
+  r := checkTok r s l "L" (eitherF32 (fun o => printRes (loadJsonO o f32DrvTy j)) confOpts (obs? l.obs "L"))
+  r := checkTok r s l "S" (printRes (stdDecode f32DrvTy j))
   r := r.addCover (if f32StableDoc j then "f32-stable-literal" else "f32-double-rounding-literal")
-  if mU ≠ printRes (unmarshalWith {} f32Ty j) then r := r.addCover "pinned-float32-double-rounding"
+  if mU ≠ printRes (unmarshalWith {} f32DrvTy j) then r := r.addCover "pinned-float32-double-rounding"
   if (g "U").startsWith "ok:" ∧ (g "S").startsWith "ok:" ∧ g "U" ≠ g "S" then
     r := r.violation s.idx l.idx s!"std-disagree class=float32-double-rounding at=json-bytes go-zero=[{g "U"}] encoding/json=[{g "S"}] doc=[{printTree j}]"
   if (g "L").startsWith "ok:" ∧ (g "S").startsWith "ok:" ∧ g "L" ≠ g "S" then
